@@ -1,3 +1,306 @@
-//! C14 — not built yet.
-use crate::run::Run;
-pub fn run(_run: &Run) { eprintln!("C14: check not built yet"); std::process::exit(2); }
+//! C14 — hostile but well-formed object graphs end in an error, not a crash (every case in a child).
+use crate::doc::CFGS;
+use crate::mkpdf::{self, arr, dict, ints, name, rf, st, stream, Obj, W};
+use crate::props::c01::{exec_case, Case};
+use crate::richdoc::{self, Layout};
+use crate::rng::Rng;
+use crate::run::{Run, Tier};
+use crate::sup::CaseFn;
+use crate::tape::Src;
+use serde_json::{json, Value};
+
+const LAYOUTS: [Layout; 3] = [Layout::Classic, Layout::XrefStream, Layout::Incremental];
+
+/// (object index, path) of every reference and numeric node of the rich document
+fn sites() -> (Vec<(usize, richdoc::Path)>, Vec<(usize, richdoc::Path)>) {
+    let objs = richdoc::objects();
+    let (mut refs, mut nums) = (Vec::new(), Vec::new());
+    for (i, (_, o)) in objs.iter().enumerate() {
+        let (mut r, mut n, mut nm) = (Vec::new(), Vec::new(), Vec::new());
+        richdoc::collect(o, &mut Vec::new(), &mut r, &mut n, &mut nm);
+        for p in r { refs.push((i, p)); }
+        for p in n { nums.push((i, p)); }
+    }
+    (refs, nums)
+}
+
+fn nest(open: &[u8], close: &[u8], depth: usize, inner: &[u8]) -> Vec<u8> {
+    let mut v = Vec::new();
+    for _ in 0..depth { v.extend_from_slice(open); }
+    v.extend_from_slice(inner);
+    for _ in 0..depth { v.extend_from_slice(close); }
+    v
+}
+
+/// Hand-written hostile documents that the object-table mutations cannot express (file structure level).
+pub fn specials() -> Vec<(String, Vec<u8>)> {
+    let mut out: Vec<(String, Vec<u8>)> = Vec::new();
+    let sk = mkpdf::skeleton(1);
+    let base = |extra: Vec<(u32, Obj)>, trailer: Vec<(&str, Obj)>| -> Vec<u8> { let mut o = sk.clone(); o.extend(extra); mkpdf::simple_doc(&o, 1, trailer) };
+    // --- /Prev loops
+    for (label, prev) in [("prev-self", None), ("prev-zero", Some(0i64)), ("prev-huge", Some(i64::MAX)), ("prev-negative", Some(-1)), ("prev-into-body", Some(20))] {
+        let mut w = W::new(b"", "1.4");
+        w.free(0, 0, 65535);
+        for (n, o) in &sk { w.obj(*n, 0, o); }
+        let pos = w.pos();
+        let p = prev.unwrap_or(pos as i64);
+        w.xref_table(vec![(b"Root".to_vec(), rf(1)), (b"Prev".to_vec(), Obj::Int(p))], 4, &[]);
+        out.push((label.into(), w.buf));
+    }
+    { // two sections pointing at each other
+        let mut w = W::new(b"", "1.4");
+        w.free(0, 0, 65535);
+        for (n, o) in &sk { w.obj(*n, 0, o); }
+        let first = w.xref_table(vec![(b"Root".to_vec(), rf(1)), (b"Prev".to_vec(), Obj::Raw(b"0000000000".to_vec()))], 4, &[]);
+        w.obj(3, 0, &sk[2].1);
+        w.last_xref = Some(first);
+        let second = w.xref_table(vec![(b"Root".to_vec(), rf(1))], 4, &[]);
+        let txt = format!("{:010}", second);
+        if let Some(p) = w.buf.windows(16).position(|x| x == b"/Prev 0000000000") { w.buf[p + 6..p + 16].copy_from_slice(txt.as_bytes()); }
+        out.push(("prev-two-cycle".into(), w.buf));
+    }
+    // --- stream /Length references
+    out.push(("length-ref-self".into(), base(vec![(4, Obj::Stream(vec![(b"Length".to_vec(), rf(4))], b"abc".to_vec()))], vec![])));
+    out.push(("length-ref-other-stream".into(), base(vec![(4, Obj::Stream(vec![(b"Length".to_vec(), rf(5))], b"abc".to_vec())), (5, stream(vec![], b"12"))], vec![])));
+    out.push(("length-ref-cycle".into(), base(vec![(4, Obj::Stream(vec![(b"Length".to_vec(), rf(5))], b"abc".to_vec())), (5, Obj::Stream(vec![(b"Length".to_vec(), rf(4))], b"abc".to_vec()))], vec![])));
+    for l in [-1i64, 0, 1 << 31, i64::MAX, 1 << 40] {
+        out.push((format!("length={}", l), base(vec![(4, Obj::Stream(vec![(b"Length".to_vec(), Obj::Int(l))], b"abc".to_vec()))], vec![])));
+    }
+    out.push(("contents-length-ref-self".into(), { let mut o = sk.clone(); o[2].1.set("Contents", rf(4)); o.push((4, Obj::Stream(vec![(b"Length".to_vec(), rf(4))], b"q Q".to_vec()))); mkpdf::simple_doc(&o, 1, vec![]) }));
+    // --- object streams
+    for (label, n, first, extends, self_member) in [("objstm-n-huge", 1i64 << 31, 10i64, None, false), ("objstm-n-negative", -1, 10, None, false), ("objstm-first-huge", 2, 1 << 40, None, false), ("objstm-first-negative", 2, -5, None, false),
+        ("objstm-extends-self", 2, 10, Some(6u32), false), ("objstm-contains-itself", 2, 10, None, true)] {
+        let mut w = W::new(b"", "1.5");
+        w.free(0, 0, 65535);
+        for (k, o) in &sk { w.obj(*k, 0, o); }
+        let mut d = vec![(b"Type".to_vec(), name("ObjStm")), (b"N".to_vec(), Obj::Int(n)), (b"First".to_vec(), Obj::Int(first))];
+        if let Some(e) = extends { d.push((b"Extends".to_vec(), rf(e))); }
+        w.obj(6, 0, &Obj::Stream(d, b"4 0 5 3 12 (ab)".to_vec()));
+        w.pending.insert(4, mkpdf::XEntry::Compressed { stm: 6, idx: 0 });
+        w.pending.insert(5, mkpdf::XEntry::Compressed { stm: 6, idx: 1 });
+        if self_member { w.pending.insert(6, mkpdf::XEntry::Compressed { stm: 6, idx: 0 }); }
+        w.pending.insert(7, mkpdf::XEntry::Compressed { stm: 6, idx: 1 << 30 });
+        w.pending.insert(8, mkpdf::XEntry::Compressed { stm: 2, idx: 0 });   // "object stream" that is a dictionary
+        w.pending.insert(9, mkpdf::XEntry::Compressed { stm: 9, idx: 0 });   // its own container, undefined
+        w.xref_stream(10, vec![(b"Root".to_vec(), rf(1))], 11, &[], &mkpdf::no_filter);
+        out.push((label.into(), w.buf));
+    }
+    // --- xref stream parameters
+    for (label, wv, index, size) in [("xrefstm-w-zero", vec![0i64, 0, 0], None, 5i64), ("xrefstm-w-huge", vec![8, 8, 8], None, 5), ("xrefstm-w-9", vec![1, 9, 1], None, 5), ("xrefstm-w-negative", vec![1, -1, 1], None, 5),
+        ("xrefstm-w-two", vec![1, 2], None, 5), ("xrefstm-index-huge", vec![1, 2, 1], Some(vec![0i64, 1 << 31]), 5), ("xrefstm-index-negative", vec![1, 2, 1], Some(vec![-5, 5]), 5), ("xrefstm-index-odd", vec![1, 2, 1], Some(vec![0, 5, 7]), 5),
+        ("xrefstm-size-max", vec![1, 2, 1], None, 2147483647), ("xrefstm-size-1e6", vec![1, 2, 1], None, 1_000_000), ("xrefstm-size-zero", vec![1, 2, 1], None, 0), ("xrefstm-size-negative", vec![1, 2, 1], None, -1)] {
+        let mut b = b"%PDF-1.5\n".to_vec();
+        let o1 = b.len(); b.extend_from_slice(b"1 0 obj\n<< /Type /Catalog /Pages 2 0 R >>\nendobj\n");
+        let o2 = b.len(); b.extend_from_slice(b"2 0 obj\n<< /Type /Pages /Kids [] /Count 0 >>\nendobj\n");
+        let x = b.len();
+        let mut data = Vec::new();
+        for (t, off) in [(0u8, 0usize), (1, o1), (1, o2), (1, x)] { data.push(t); data.extend_from_slice(&(off as u16).to_be_bytes()); data.push(0); }
+        let mut d = vec![("Type", name("XRef")), ("Size", Obj::Int(size)), ("W", ints(&wv)), ("Root", rf(1))];
+        if let Some(ix) = index { d.push(("Index", ints(&ix))); }
+        b.extend_from_slice(b"3 0 obj\n");
+        mkpdf::write_obj(&stream(d, &data), &mut b, &mkpdf::Ctx { nr: 3, gen: 0, crypt: None });
+        b.extend_from_slice(format!("\nendobj\nstartxref\n{}\n%%EOF\n", x).as_bytes());
+        out.push((label.into(), b));
+    }
+    // --- nesting
+    for depth in [19usize, 20, 21, 25, 1000, 100_000] {
+        out.push((format!("nest-array-{}", depth), base(vec![(4, Obj::Raw(nest(b"[", b"]", depth, b"1")))], vec![])));
+        out.push((format!("nest-dict-{}", depth), base(vec![(4, Obj::Raw(nest(b"<</A ", b">>", depth, b"1")))], vec![])));
+        let mut o = sk.clone(); o[2].1.set("Contents", rf(4));
+        let mut c = nest(b"[", b"]", depth, b"1"); c.extend_from_slice(b" TJ /T "); c.extend_from_slice(&nest(b"<</A ", b">>", depth, b"1")); c.extend_from_slice(b" DP");
+        o.push((4, stream(vec![], &c)));
+        out.push((format!("nest-content-{}", depth), mkpdf::simple_doc(&o, 1, vec![])));
+        out.push((format!("nest-trailer-{}", depth), base(vec![], vec![("X", Obj::Raw(nest(b"[", b"]", depth, b"1")))])));
+        out.push((format!("nest-parens-{}", depth), base(vec![(4, Obj::Raw(nest(b"(", b")", depth, b"x")))], vec![])));
+    }
+    // --- encryption dictionaries
+    let enc = |items: Vec<(&str, Obj)>| -> Vec<u8> { base(vec![(4, dict(items))], vec![("Encrypt", rf(4)), ("ID", arr(vec![st("0123456789abcdef"), st("0123456789abcdef")]))]) };
+    let o32 = Obj::Str(vec![7u8; 32]);
+    for (v, r, len) in [(1i64, 2i64, 40i64), (2, 3, 0), (2, 3, -8), (2, 3, 8), (2, 3, 2048), (2, 3, 2147483647), (4, 4, 128), (5, 5, 256), (5, 6, 256), (0, 0, 40), (3, 3, 40), (6, 7, 40), (-1, -1, -1), (2147483647, 2147483647, 128)] {
+        out.push((format!("encrypt-v{}-r{}-len{}", v, r, len), enc(vec![("Filter", name("Standard")), ("V", Obj::Int(v)), ("R", Obj::Int(r)), ("Length", Obj::Int(len)), ("O", o32.clone()), ("U", o32.clone()), ("P", Obj::Int(-1))])));
+    }
+    for (label, o, u) in [("encrypt-empty-ou", Obj::Str(vec![]), Obj::Str(vec![])), ("encrypt-short-ou", Obj::Str(vec![1]), Obj::Str(vec![2; 5])), ("encrypt-long-ou", Obj::Str(vec![3; 200]), Obj::Str(vec![4; 200]))] {
+        for (v, r) in [(1i64, 2i64), (2, 3), (4, 4), (5, 5), (5, 6)] {
+            let mut items = vec![("Filter", name("Standard")), ("V", Obj::Int(v)), ("R", Obj::Int(r)), ("Length", Obj::Int(if v == 5 { 256 } else { 128 })), ("O", o.clone()), ("U", u.clone()), ("P", Obj::Int(-4)),
+                ("OE", o.clone()), ("UE", u.clone()), ("Perms", o.clone())];
+            if v >= 4 { items.push(("CF", dict(vec![("StdCF", dict(vec![("CFM", name(if v == 5 { "AESV3" } else { "AESV2" })), ("Length", Obj::Int(if r == 6 { 0 } else { 16 }))]))]))); items.push(("StmF", name("StdCF"))); items.push(("StrF", name("StdCF"))); }
+            out.push((format!("{}-v{}r{}", label, v, r), enc(items)));
+        }
+    }
+    out.push(("encrypt-no-id".into(), base(vec![(4, dict(vec![("Filter", name("Standard")), ("V", Obj::Int(1)), ("R", Obj::Int(2)), ("O", o32.clone()), ("U", o32.clone()), ("P", Obj::Int(-1))]))], vec![("Encrypt", rf(4))])));
+    out.push(("encrypt-ref-self".into(), base(vec![(4, rf(4))], vec![("Encrypt", rf(4)), ("ID", arr(vec![st("a"), st("b")]))])));
+    // --- filters with hostile parameters on a page's content stream and an image
+    let filt = |label: &str, f: Obj, parms: Obj, data: &[u8], out: &mut Vec<(String, Vec<u8>)>| {
+        let mut o = sk.clone(); o[2].1.set("Contents", rf(4)); o[2].1.set("Resources", dict(vec![("XObject", dict(vec![("I", rf(5))]))]));
+        o.push((4, stream(vec![("Filter", f.clone()), ("DecodeParms", parms.clone())], data)));
+        o.push((5, stream(vec![("Type", name("XObject")), ("Subtype", name("Image")), ("Width", Obj::Int(1)), ("Height", Obj::Int(1)), ("BitsPerComponent", Obj::Int(8)), ("ColorSpace", name("DeviceGray")), ("Filter", f), ("DecodeParms", parms)], data)));
+        out.push((label.to_string(), mkpdf::simple_doc(&o, 1, vec![])));
+    };
+    let z = miniz_oxide::deflate::compress_to_vec_zlib(&vec![0u8; 5000], 6);
+    for (pred, colors, bpc, cols) in [(12i64, 1i64, 8i64, 2147483647i64), (12, 2147483647, 8, 1), (12, 65536, 16, 65536), (15, 0, 8, 1), (12, 1, 0, 1), (12, 1, 7, 5), (12, -1, 8, 5), (12, 1, 8, -1), (2, 1, 8, 0), (2, 4, 16, 1 << 30), (2, 3, 1, 7), (10, 1, 8, 4999), (1 << 31, 1, 8, 1), (-12, 1, 8, 1)] {
+        let p = dict(vec![("Predictor", Obj::Int(pred)), ("Colors", Obj::Int(colors)), ("BitsPerComponent", Obj::Int(bpc)), ("Columns", Obj::Int(cols))]);
+        filt(&format!("flate-pred{}-c{}-b{}-w{}", pred, colors, bpc, cols), name("FlateDecode"), p.clone(), &z, &mut out);
+        filt(&format!("lzw-pred{}-c{}-b{}-w{}", pred, colors, bpc, cols), name("LZWDecode"), p, &[0x80, 0x0b, 0x60, 0x50, 0x22, 0x0c, 0x0c, 0x85, 0x01], &mut out);
+    }
+    for (k, cols, rows) in [(-1i64, 0i64, 0i64), (-1, 2147483647, 2147483647), (-1, 65535, 65535), (-1, 1, 0), (0, 1728, 0), (5, 8, 8), (-1, -1, -1), (-1, 70000, 2)] {
+        filt(&format!("ccitt-k{}-c{}-r{}", k, cols, rows), name("CCITTFaxDecode"), dict(vec![("K", Obj::Int(k)), ("Columns", Obj::Int(cols)), ("Rows", Obj::Int(rows))]), &[0x26, 0xa0, 0x00, 0x10, 0x01, 0xff, 0xff, 0x00], &mut out);
+    }
+    filt("dct-garbage", name("DCTDecode"), Obj::Null, &[0xff, 0xd8, 0xff, 0xe0, 0, 16, b'J', b'F', b'I', b'F', 0, 1, 1, 0, 0, 1, 0, 1, 0, 0, 0xff, 0xd9], &mut out);
+    filt("dct-sof-huge", name("DCTDecode"), Obj::Null, &[0xff, 0xd8, 0xff, 0xc0, 0, 11, 8, 0xff, 0xff, 0xff, 0xff, 1, 1, 0x11, 0, 0xff, 0xd9], &mut out);
+    filt("filter-chain-60", Obj::Arr((0..60).map(|_| name("ASCIIHexDecode")).collect()), Obj::Null, b"41>", &mut out);
+    filt("filter-unknown", name("NoSuchDecode"), Obj::Null, b"x", &mut out);
+    filt("filter-jbig2-jpx-crypt", arr(vec![name("JBIG2Decode"), name("JPXDecode"), name("Crypt")]), Obj::Null, b"x", &mut out);
+    { // deflate bomb: 2 MiB of zeros -> ~2 KiB, twice nested
+        let once = miniz_oxide::deflate::compress_to_vec_zlib(&vec![0u8; 4 << 20], 9);
+        let twice = miniz_oxide::deflate::compress_to_vec_zlib(&once, 9);
+        filt("flate-bomb-nested", arr(vec![name("FlateDecode"), name("FlateDecode")]), Obj::Null, &twice, &mut out);
+        filt("runlength-expansion", name("RunLengthDecode"), Obj::Null, &[129u8, 0].repeat(20000), &mut out);
+    }
+    // --- functions and colour spaces that mutations of single numbers cannot reach
+    let with_cs = |label: &str, cs: Obj, extra: Vec<(u32, Obj)>, out: &mut Vec<(String, Vec<u8>)>| {
+        let mut o = sk.clone(); o[2].1.set("Resources", dict(vec![("ColorSpace", dict(vec![("C", cs)]))])); o.extend(extra);
+        out.push((label.to_string(), mkpdf::simple_doc(&o, 1, vec![])));
+    };
+    for prog in ["{ 1 -1 roll }", "{ 0 1000000000 roll }", "{ -1 1 roll }", "{ 5 index }", "{ -1 index }", "} {", "{", "", "{ 1e39 1e39 mul }", "{ dup dup dup dup dup dup dup dup dup dup }", "{ 2147483647 2147483647 roll }", "{ pop pop pop }", "{ 0 0 roll }", "{ 3 -2147483648 roll }"] {
+        with_cs(&format!("psfunc:{}", prog), arr(vec![name("Separation"), name("S"), name("DeviceGray"), rf(4)]), vec![(4, stream(vec![("FunctionType", Obj::Int(4)), ("Domain", ints(&[0, 1])), ("Range", ints(&[0, 1]))], prog.as_bytes()))], &mut out);
+    }
+    for (size, bps, order) in [(vec![0i64], 8i64, 1i64), (vec![2147483647, 2147483647], 8, 1), (vec![-1], 8, 1), (vec![2], 0, 1), (vec![2], 64, 1), (vec![2], 8, 3), (vec![2, 2, 2, 2], 8, 1), (vec![], 8, 1), (vec![65536, 65536, 65536], 8, 1)] {
+        with_cs(&format!("sampled-size{:?}-bps{}-order{}", size, bps, order), arr(vec![name("Separation"), name("S"), name("DeviceGray"), rf(4)]),
+            vec![(4, stream(vec![("FunctionType", Obj::Int(0)), ("Domain", ints(&[0, 1])), ("Range", ints(&[0, 1])), ("Size", ints(&size)), ("BitsPerSample", Obj::Int(bps)), ("Order", Obj::Int(order))], &[1, 2, 3, 4]))], &mut out);
+    }
+    for hival in [-1i64, 0, 255, 256, 2147483647] {
+        with_cs(&format!("indexed-hival{}", hival), arr(vec![name("Indexed"), name("DeviceRGB"), Obj::Int(hival), Obj::Str(vec![1, 2, 3])]), vec![], &mut out);
+        with_cs(&format!("indexed-stream-hival{}", hival), arr(vec![name("Indexed"), name("DeviceRGB"), Obj::Int(hival), rf(4)]), vec![(4, stream(vec![], &[1, 2, 3]))], &mut out);
+    }
+    with_cs("cs-indexed-base-self", rf(4), vec![(4, arr(vec![name("Indexed"), rf(4), Obj::Int(1), Obj::Str(vec![0; 6])]))], &mut out);
+    with_cs("cs-separation-alt-self", rf(4), vec![(4, arr(vec![name("Separation"), name("S"), rf(4), rf(5)])), (5, dict(vec![("FunctionType", Obj::Int(2)), ("Domain", ints(&[0, 1])), ("N", Obj::Int(1))]))], &mut out);
+    with_cs("cs-nested-indexed-200", Obj::Raw({ let mut v = Vec::new(); for _ in 0..200 { v.extend_from_slice(b"[/Indexed "); } v.extend_from_slice(b"/DeviceGray"); for _ in 0..200 { v.extend_from_slice(b" 1 <0000>]"); } v }), vec![], &mut out);
+    with_cs("cs-icc-alternate-self", arr(vec![name("ICCBased"), rf(4)]), vec![(4, stream(vec![("N", Obj::Int(3)), ("Alternate", arr(vec![name("ICCBased"), rf(4)]))], &[0; 8]))], &mut out);
+    with_cs("cs-devicen-alt-loop", rf(4), vec![(4, arr(vec![name("DeviceN"), arr(vec![name("A")]), rf(4), rf(5)])), (5, dict(vec![("FunctionType", Obj::Int(2)), ("Domain", ints(&[0, 1])), ("N", Obj::Int(1))]))], &mut out);
+    // --- fonts
+    let with_font = |label: &str, font: Obj, extra: Vec<(u32, Obj)>, out: &mut Vec<(String, Vec<u8>)>| {
+        let mut o = sk.clone(); o[2].1.set("Resources", dict(vec![("Font", dict(vec![("F", rf(4))]))])); o.push((4, font)); o.extend(extra);
+        out.push((label.to_string(), mkpdf::simple_doc(&o, 1, vec![])));
+    };
+    for (fc, lc, n) in [(-1i64, 5i64, 3usize), (2147483647, 2147483647, 3), (5, 2, 3), (0, 0, 0), (0, 255, 100_000), (256, 300, 3)] {
+        with_font(&format!("simple-font-fc{}-lc{}-n{}", fc, lc, n), dict(vec![("Type", name("Font")), ("Subtype", name("Type1")), ("BaseFont", name("X")), ("FirstChar", Obj::Int(fc)), ("LastChar", Obj::Int(lc)), ("Widths", ints(&vec![500; n]))]), vec![], &mut out);
+    }
+    for w in [vec![Obj::Int(0), Obj::Arr(vec![])], vec![Obj::Int(65535), ints(&[1, 2, 3])], vec![Obj::Int(1)], vec![Obj::Int(1), Obj::Int(2)], vec![Obj::Int(5), Obj::Int(1), Obj::Int(500)], vec![Obj::Int(0), Obj::Int(65535), Obj::Int(500)],
+        vec![ints(&[1]), Obj::Int(2)], vec![Obj::Int(1), rf(6)], vec![Obj::Int(1), arr(vec![name("x")])], vec![Obj::Int(70000), ints(&[1])]] {
+        let lab = format!("cid-w:{}", String::from_utf8_lossy(&mkpdf::obj_bytes(&Obj::Arr(w.clone()))));
+        with_font(&lab, dict(vec![("Type", name("Font")), ("Subtype", name("Type0")), ("BaseFont", name("X")), ("Encoding", name("Identity-H")), ("DescendantFonts", arr(vec![rf(5)]))]),
+            vec![(5, dict(vec![("Type", name("Font")), ("Subtype", name("CIDFontType2")), ("BaseFont", name("X")), ("CIDSystemInfo", dict(vec![("Registry", st("A")), ("Ordering", st("I")), ("Supplement", Obj::Int(0))])),
+                ("FontDescriptor", rf(7)), ("W", Obj::Arr(w))])), (6, rf(6)), (7, dict(vec![("Type", name("FontDescriptor")), ("FontName", name("X")), ("Flags", Obj::Int(4)), ("FontBBox", ints(&[0, 0, 1, 1])), ("ItalicAngle", Obj::Int(0)), ("Ascent", Obj::Int(1)), ("Descent", Obj::Int(0)), ("CapHeight", Obj::Int(1)), ("StemV", Obj::Int(1))]))], &mut out);
+    }
+    with_font("type0-descendant-self", dict(vec![("Type", name("Font")), ("Subtype", name("Type0")), ("BaseFont", name("X")), ("Encoding", name("Identity-H")), ("DescendantFonts", arr(vec![rf(4)]))]), vec![], &mut out);
+    with_font("type0-no-descendants", dict(vec![("Type", name("Font")), ("Subtype", name("Type0")), ("BaseFont", name("X")), ("Encoding", name("Identity-H")), ("DescendantFonts", arr(vec![]))]), vec![], &mut out);
+    for cmap in [&b"1 beginbfrange\n<0000> <FFFF> <0041>\nendbfrange"[..], b"1 beginbfrange\n<FFFF> <0000> <0041>\nendbfrange", b"1 beginbfrange\n<0000> <FFFF> [<0041>]\nendbfrange", b"1 beginbfchar\n<> <>\nendbfchar", b"1 beginbfchar\n<00010203040506> <D800>\nendbfchar",
+        b"100000 beginbfchar\n<0001> <0041>\nendbfchar", b"1 beginbfrange\n<00> <FF> <D800>\nendbfrange", b"beginbfrange\n<0000> <0001>", b"1 beginbfrange <0000> <00FF> <FFFFFFFFFFFFFFFF> endbfrange", b"1 begincidrange\n<0000> <FFFF> 0\nendcidrange"] {
+        with_font(&format!("tounicode:{}", String::from_utf8_lossy(&cmap[..cmap.len().min(40)]).replace('\n', " ")), dict(vec![("Type", name("Font")), ("Subtype", name("Type1")), ("BaseFont", name("X")), ("ToUnicode", rf(5))]), vec![(5, stream(vec![], cmap))], &mut out);
+    }
+    with_font("tounicode-ref-self-length", dict(vec![("Type", name("Font")), ("Subtype", name("Type1")), ("BaseFont", name("X")), ("ToUnicode", rf(4))]), vec![], &mut out);
+    for diffs in [vec![Obj::Int(2147483647), name("a"), name("b")], vec![Obj::Int(-2147483648), name("a")], vec![name("a")], vec![Obj::Int(1), Obj::Int(2), Obj::Int(3)], vec![Obj::Real(1.5), name("a")]] {
+        with_font(&format!("differences:{}", String::from_utf8_lossy(&mkpdf::obj_bytes(&Obj::Arr(diffs.clone())))), dict(vec![("Type", name("Font")), ("Subtype", name("Type1")), ("BaseFont", name("X")), ("Encoding", dict(vec![("Type", name("Encoding")), ("Differences", Obj::Arr(diffs))]))]), vec![], &mut out);
+    }
+    // --- page tree shapes
+    for (label, kids, count) in [("pages-count-huge", vec![rf(3)], 2147483647i64), ("pages-count-negative", vec![rf(3)], -1), ("pages-kids-self", vec![rf(2)], 1), ("pages-kids-catalog", vec![rf(1)], 1), ("pages-kids-dup", vec![rf(3), rf(3), rf(3)], 3), ("pages-kids-missing", vec![rf(99)], 1)] {
+        let mut o = sk.clone(); o[1].1.set("Kids", Obj::Arr(kids)); o[1].1.set("Count", Obj::Int(count));
+        out.push((label.into(), mkpdf::simple_doc(&o, 1, vec![])));
+    }
+    { // a chain of 40 intermediate nodes (deeper than the supported depth)
+        let mut o = vec![(1, dict(vec![("Type", name("Catalog")), ("Pages", rf(2))]))];
+        for k in 0..40u32 { o.push((2 + k, dict(vec![("Type", name("Pages")), ("Kids", arr(vec![rf(3 + k)])), ("Count", Obj::Int(1)), ("Parent", rf(if k == 0 { 2 } else { 1 + k }))]))); }
+        o.push((42, dict(vec![("Type", name("Page")), ("Parent", rf(41)), ("MediaBox", ints(&[0, 0, 1, 1]))])));
+        out.push(("pages-chain-40".into(), mkpdf::simple_doc(&o, 1, vec![])));
+    }
+    { // catalog that is its own page tree / outlines / names
+        let o = vec![(1, dict(vec![("Type", name("Catalog")), ("Pages", rf(1)), ("Outlines", rf(1)), ("Names", rf(1)), ("First", rf(1)), ("Next", rf(1)), ("Kids", arr(vec![rf(1)])), ("Count", Obj::Int(1)), ("Dests", rf(1)), ("PageLabels", rf(1)), ("AcroForm", rf(1)), ("Fields", arr(vec![rf(1)])), ("Metadata", rf(1))]))];
+        out.push(("everything-is-object-1".into(), mkpdf::simple_doc(&o, 1, vec![])));
+    }
+    // --- header / trailer oddities
+    out.push(("size-huge-classic".into(), base(vec![], vec![("Size", Obj::Int(2147483647))])));
+    out.push(("root-not-a-ref".into(), { let mut b = base(vec![], vec![]); if let Some(p) = b.windows(11).position(|w| w == b"/Root 1 0 R") { b[p + 6..p + 11].copy_from_slice(b"null "); } b }));
+    out.push(("startxref-huge".into(), { let mut b = base(vec![], vec![]); let p = b.windows(9).rposition(|w| w == b"startxref").unwrap(); b.truncate(p); b.extend_from_slice(b"startxref\n18446744073709551615\n%%EOF"); b }));
+    out.push(("startxref-negative".into(), { let mut b = base(vec![], vec![]); let p = b.windows(9).rposition(|w| w == b"startxref").unwrap(); b.truncate(p); b.extend_from_slice(b"startxref\n-1\n%%EOF"); b }));
+    out.push(("xref-count-huge".into(), { let mut b = base(vec![], vec![]); if let Some(p) = b.windows(9).position(|w| w == b"xref\n0 4\n") { b[p + 7] = b'9'; } b }));
+    out.push(("header-only".into(), b"%PDF-1.7\n".to_vec()));
+    out.push(("startxref-only".into(), b"%PDF-1.7\nstartxref\n0\n%%EOF".to_vec()));
+    out
+}
+
+/// Case table: [single-ref re-pointings] ++ [single boundary numbers] ++ [specials] ++ seeded pairs.
+pub struct Table { refs: Vec<(usize, richdoc::Path)>, nums: Vec<(usize, richdoc::Path)>, targets: Vec<u32>, specials: Vec<(String, Vec<u8>)>, pub n_ref: u64, pub n_num: u64, pub n_spec: u64 }
+pub fn table() -> Table {
+    let (refs, nums) = sites();
+    let mut targets: Vec<u32> = richdoc::objects().iter().map(|(n, _)| *n).collect();
+    targets.extend([0, 9999]);
+    let specials = specials();
+    let (n_ref, n_num, n_spec) = (refs.len() as u64 * targets.len() as u64, nums.len() as u64 * 14, specials.len() as u64 * 4);
+    Table { refs, nums, targets, specials, n_ref, n_num, n_spec }
+}
+impl Table {
+    pub fn enumerated(&self) -> u64 { self.n_ref + self.n_num + self.n_spec }
+    pub fn case(&self, seed: u64, idx: u64, all_combos: bool) -> Case {
+        // idx -> (base case, layout/cfg combination)
+        let e = self.enumerated();
+        let (base, combo) = if all_combos { (idx / 12, idx % 12) } else { (idx, (idx.wrapping_mul(7) + idx / 13) % 12) };
+        let layout = LAYOUTS[(combo % 3) as usize];
+        let cfg = CFGS[(combo / 3) as usize];
+        let mut objs = richdoc::objects();
+        if base < self.n_ref {
+            let (oi, p) = &self.refs[(base / self.targets.len() as u64) as usize];
+            let t = self.targets[(base % self.targets.len() as u64) as usize];
+            let lab = format!("ref:obj{}.{}->{}", objs[*oi].0, richdoc::path_label(&objs[*oi].1, p), if t == objs[*oi].0 { "self".into() } else { t.to_string() });
+            *richdoc::node_mut(&mut objs[*oi].1, p) = Obj::Ref(t, 0);
+            Case { bytes: richdoc::write(&objs, layout, b""), password: vec![], cfg, labels: lab, deep: false }
+        } else if base < self.n_ref + self.n_num {
+            let b = base - self.n_ref;
+            let (oi, p) = &self.nums[(b / 14) as usize];
+            let v = richdoc::boundary_obj((b % 14) as usize);
+            let lab = format!("num:obj{}.{}={}", objs[*oi].0, richdoc::path_label(&objs[*oi].1, p), String::from_utf8_lossy(&mkpdf::obj_bytes(&v)));
+            *richdoc::node_mut(&mut objs[*oi].1, p) = v;
+            Case { bytes: richdoc::write(&objs, layout, b""), password: vec![], cfg, labels: lab, deep: false }
+        } else if base < e {
+            let b = base - self.n_ref - self.n_num;
+            let (lab, bytes) = &self.specials[(b / 4) as usize];
+            Case { bytes: bytes.clone(), password: vec![], cfg: CFGS[(b % 4) as usize], labels: format!("special:{}", lab), deep: true }
+        } else {
+            // seeded combinations of 2-4 mutations
+            let mut s = Src::fresh(Rng::derive(seed, 14, base));
+            let n = 2 + s.draw(3);
+            let labs: Vec<String> = (0..n).map(|_| richdoc::mutate(&mut objs, &mut s)).collect();
+            Case { bytes: richdoc::write(&objs, layout, b""), password: vec![], cfg, labels: format!("combo:{}", labs.join(";")), deep: false }
+        }
+    }
+}
+
+pub fn worker(tier: Tier, seed: u64) -> CaseFn<'static> {
+    let t = table();
+    let all = tier == Tier::Thorough;
+    Box::new(move |idx, out, counters| {
+        let c = t.case(seed, idx, all);
+        exec_case("C14", idx, &c, out, counters);
+    })
+}
+
+pub fn run(run: &Run) {
+    let t = table();
+    let all = !run.quick();
+    run.rule("exhaustive single-site hostile edits of a rich well-formed document (every reference-valued field re-pointed to every object incl. itself, 0 and an undefined number; every numeric field set to each of 14 boundary values {-1,0,1,2,255,256,65535,65536,2^31-1,-2^31,2^32-1,2^64-1,-0.5,1e26}), hand-written file-structure attacks (/Prev loops, /Length reference cycles, object streams containing themselves / bad N, First, Extends, xref-stream W/Index/Size extremes, nesting 19..100000, /Encrypt parameter extremes, predictor/CCITT/DCT geometry, filter chains, decompression bombs, PostScript/sampled functions, colour-space loops, font width/ToUnicode/Differences extremes, page-tree loops) and seeded 2-4 edit combinations; all syntactically valid; each case: C01's load+walk in a child process under panic monitor and CPU/allocation budgets. quick: one (layout, configuration) per enumerated case; thorough: all 12. distinct_nontrivial = distinct files on which > 30 library calls ran");
+    run.assume("same walker and budgets as C01");
+    let e = t.enumerated();
+    let n = if all { e * 12 + run.n(0, 600_000) } else { e + run.n(15_000, 0) };
+    run.add("enumerated_ref_repointings", t.n_ref);
+    run.add("enumerated_boundary_numbers", t.n_num);
+    run.add("special_documents_x4cfg", t.n_spec);
+    run.exhaustive("single reference re-pointing x all targets; single numeric field x 14 boundary values; special documents x 4 configurations", true);
+    let seed = run.seed;
+    crate::sup::run_cases(run, "C14", n, 50, &|idx| {
+        let c = t.case(seed, idx, all);
+        let path = format!("{}/replay/C14-input-{}.pdf", crate::run::verif_root(), idx);
+        let _ = std::fs::create_dir_all(format!("{}/replay", crate::run::verif_root()));
+        let _ = std::fs::write(&path, &c.bytes);
+        (c.labels.clone(), json!({"labels": c.labels, "cfg": c.cfg.name(), "input_file": path, "idx": idx}))
+    });
+    let _: Option<Value> = None;
+}
